@@ -1,86 +1,114 @@
-(* C14 phase 2: agreement of the two reader models on modules without blackbox instances (part D3) *)
+(* C14 phase 2: agreement of the two reader models on the documented subset (part D3) *)
 From stdpp Require Import strings gmap sets pretty.
 From CG Require Import Model.FastVerilog Proofs.FastVerilogProofs Gen.Gen_fastv Base.Compose.
-From CG Require Import Proofs.FvA0 Proofs.FvA1 Proofs.FvA2 Proofs.FvA3 Proofs.FvA4 Proofs.FvA5 Proofs.FvA6 Proofs.FvA7 Proofs.FvA8 Proofs.FvA9 Proofs.FvA10 Proofs.FvB1 Proofs.FvB2 Proofs.FvB3 Proofs.FvB4 Proofs.FvB5 Proofs.FvC1 Proofs.FvC2 Proofs.FvD1 Proofs.FvD2.
+From CG Require Import Proofs.FvA0 Proofs.FvA1 Proofs.FvA2 Proofs.FvP1 Proofs.FvE1 Proofs.FvE2 Proofs.FvE3 Proofs.FvE4 Proofs.FvA3 Proofs.FvE5 Proofs.FvE6 Proofs.FvE7 Proofs.FvA4 Proofs.FvA5 Proofs.FvA6 Proofs.FvA7 Proofs.FvA8 Proofs.FvA9 Proofs.FvA10 Proofs.FvB1 Proofs.FvB2 Proofs.FvB3 Proofs.FvB4 Proofs.FvB5 Proofs.FvC1 Proofs.FvC2 Proofs.FvD1 Proofs.FvD2.
 Open Scope string_scope.
 
-Definition it_ops (it : item) : list opd := match gate_view_sym it with Some (_, (_, l)) => l | None => [] end.
-Definition all_ops (a : ast) : list opd := a_items a ≫= it_ops.
+Definition all_ops (bbs : list bbdef) (a : ast) : list opd := a_items a ≫= uses_sym bbs.
 
 Section symfacts.
   Variables (a : ast) (bbs : list bbdef).
   Hypothesis Hsub : in_subset a bbs = true.
-  Hypothesis Hni : no_inst a = true.
   Let HF := in_subset_facts a bbs Hsub.
+  Notation symG := (symG bbs a). Notation all_ops := (all_ops bbs a). Notation goodop := (goodop a).
 
-  Lemma itemgood_of it : it ∈ a_items a → itemgood a it.
+  Lemma itemgood_of it : it ∈ a_items a → itemgood a bbs it.
   Proof.
-    intros Hit. pose proof (fgood_of a bbs Hsub Hni it Hit) as Hg.
+    intros Hit. pose proof (fgood_of a bbs Hsub it Hit) as Hg.
     destruct it as [ns|ns|ns|t inst ops|l r|bb inst conns]; cbn [fgood itemgood] in *; try done.
     - destruct Hg as (o & ins & -> & Ht & Hc & Hio & Hnets). exists o, ins. split; [done|]. apply Forall_forall. intros x Hx.
-      destruct x as [s|s]; cbn [goodop].
-      + eapply idents_item; [exact Hit|]. cbn [item_ids]. right. rewrite bind_cons. apply elem_of_app. right. apply elem_of_list_bind. exists (ONet s). split; [by left|done].
+      destruct x as [s|s]; cbn [FvD2.goodop].
+      + left. eapply idents_item; [exact Hit|]. cbn [item_ids]. right. rewrite bind_cons. apply elem_of_app. right. apply elem_of_list_bind. exists (ONet s). split; [by left|done].
       + rewrite forallb_forall in Hc. specialize (Hc (OConst s)). rewrite <- elem_of_list_In in Hc. specialize (Hc Hx). simpl in Hc.
         apply orb_true_iff in Hc as [?%bool_decide_eq_true|?%bool_decide_eq_true]; auto.
-    - destruct Hg as [Hc Hn]. destruct r as [s|s]; cbn [goodop].
-      + eapply idents_item; [exact Hit|]. right. by left.
+    - destruct Hg as [Hc Hn]. destruct r as [s|s]; cbn [FvD2.goodop].
+      + left. eapply idents_item; [exact Hit|]. right. by left.
       + simpl in Hc. apply orb_true_iff in Hc as [?%bool_decide_eq_true|?%bool_decide_eq_true]; auto.
+    - destruct Hg as (d & Hf & Hdisj & Hc). exists d. split; [done|]. intros p o Hin. destruct (Hc p (Some o) Hin) as [_ Ho]. destruct (Ho o eq_refl) as [Hco Hid].
+      split.
+      + destruct o as [s|s]; cbn [FvD2.goodop].
+        * left. eapply idents_item; [exact Hit|]. cbn [item_ids]. right. right. apply elem_of_list_bind. exists (p, Some (ONet s)). split; [|done]. cbn [fst snd from_option opd_ids]. right. by left.
+        * simpl in Hco. apply orb_true_iff in Hco as [?%bool_decide_eq_true|?%bool_decide_eq_true]; auto.
+      + intros Hp. pose proof (item_ok_of a bbs HF _ Hit) as Hok. destruct (item_ok_inst _ _ _ _ Hok) as (d' & Hf' & _ & _ & Hc'). rewrite Hf in Hf'. injection Hf' as <-.
+        destruct (Hc' p (Some o) Hin) as [_ Ho']. by destruct (Ho' o eq_refl) as [_ Hn]; apply Hn.
   Qed.
-  Lemma symG_from items : ∀ G o v, foldl stp_sym G items !! o = Some v → G !! o = Some v ∨ ∃ it, it ∈ items ∧ gate_view_sym it = Some (o, v).
+  Lemma foldl_ins_from {V} (l : list (string * V)) : ∀ (G : gmap string V) o v,
+    foldl (λ G e, <[e.1 := e.2]> G) G l !! o = Some v → G !! o = Some v ∨ (o, v) ∈ l.
+  Proof.
+    induction l as [|e l IH]; intros G o v H; [by left|]. cbn [foldl] in H. apply IH in H as [H|H]; [|right; by right].
+    apply lookup_insert_Some in H as [[<- <-]|[_ H]]; [right; destruct e; by left|by left].
+  Qed.
+  Lemma symG_from items : ∀ G o v, foldl (stp_sym bbs) G items !! o = Some v → G !! o = Some v ∨ ∃ it, it ∈ items ∧ (o, v) ∈ views_sym bbs it.
   Proof.
     induction items as [|it items IH]; intros G o v; cbn [foldl]; [auto|]. intros H. apply IH in H as [H|(it' & ? & ?)]; [|right; exists it'; split; [by right|done]].
-    unfold stp_sym in H. destruct (gate_view_sym it) as [[o' v']|] eqn:E; [|auto].
-    apply lookup_insert_Some in H as [[-> ->]|[_ ?]]; [right; exists it; split; [by left|done]|auto].
+    unfold stp_sym in H. apply foldl_ins_from in H as [?|?]; [by left|right; exists it; split; [by left|done]].
   Qed.
-  Lemma symG_item o v : symG a !! o = Some v → ∃ it, it ∈ a_items a ∧ gate_view_sym it = Some (o, v).
+  Lemma symG_item o v : symG !! o = Some v → ∃ it, it ∈ a_items a ∧ (o, v) ∈ views_sym bbs it.
   Proof. intros H. apply symG_from in H as [H|?]; [by rewrite lookup_empty in H|done]. Qed.
-  Lemma symG_ops o v x : symG a !! o = Some v → x ∈ v.2 → x ∈ all_ops a ∧ goodop a x.
+  Lemma uses_sym_good it x : it ∈ a_items a → x ∈ uses_sym bbs it → goodop x.
   Proof.
-    intros (it & Hit & Hv)%symG_item Hx. split.
-    - apply elem_of_list_bind. exists it. split; [|done]. unfold it_ops. rewrite Hv. by destruct v.
-    - pose proof (view_sym_good a it o v (itemgood_of it Hit) Hv) as Hg. by eapply (proj1 (Forall_forall _ _) Hg).
+    intros Hit Hx. pose proof (itemgood_of it Hit) as Hg. destruct it as [ns|ns|ns|t inst ops|l r|bb inst conns]; cbn [itemgood] in Hg.
+    1-3: (cbn [uses_sym gate_view_sym] in Hx; by apply elem_of_nil in Hx).
+    - destruct Hg as (o & ins & -> & Hl). cbn [uses_sym gate_view_sym] in Hx. pose proof (norm_sym_good a t ins Hl) as Hn. destruct (norm_sym t ins). by eapply (proj1 (Forall_forall _ _) Hn).
+    - cbn [uses_sym gate_view_sym] in Hx. apply elem_of_list_singleton in Hx as ->. done.
+    - destruct Hg as (d & Hf & Hc). cbn [uses_sym] in Hx. rewrite Hf in Hx. apply elem_of_list_fmap in Hx as ([p o] & -> & [Hin _]%in_ops_elem). by destruct (Hc p o Hin).
   Qed.
-  Lemma symG_type o v : symG a !! o = Some v → v.1 ∈ primitive_gates.
+  Lemma all_ops_good x : x ∈ all_ops → goodop x.
+  Proof. intros (it & Hx & Hit)%elem_of_list_bind. by eapply uses_sym_good. Qed.
+  (* operands of a node: well-formed; a constant among them is a "use" *)
+  Lemma symG_ops o v x : symG !! o = Some v → x ∈ v.2 → goodop x ∧ (∀ k, x = OConst k → x ∈ all_ops).
   Proof.
-    intros (it & Hit & Hv)%symG_item. pose proof (fgood_of a bbs Hsub Hni it Hit) as Hg.
-    destruct it as [ns|ns|ns|t inst ops|l r|bb inst conns]; cbn [gate_view_sym fgood] in *; try done.
-    - destruct Hg as (o' & ins & -> & Ht & _). injection Hv as <- <-. unfold norm_sym. destruct (is_parity t); [|done].
+    intros (it & Hit & Hv)%symG_item Hx. pose proof (itemgood_of it Hit) as Hg. split.
+    - pose proof (views_sym_good a bbs it o v Hg Hv) as Hgd. by eapply (proj1 (Forall_forall _ _) Hgd).
+    - intros k ->. apply elem_of_list_bind. exists it. split; [|done].
+      destruct it as [ns|ns|ns|t inst ops|l r|bb inst conns]; cbn [itemgood] in Hg.
+      1-3: (cbn [views_sym gate_view_sym] in Hv; by apply elem_of_nil in Hv).
+      + destruct Hg as (o' & ins & -> & _). cbn [views_sym uses_sym gate_view_sym] in *. apply elem_of_list_singleton in Hv as [= -> ->]. by destruct (norm_sym t ins).
+      + cbn [views_sym uses_sym gate_view_sym] in *. apply elem_of_list_singleton in Hv as [= -> ->]. done.
+      + destruct Hg as (d & Hf & _). cbn [views_sym uses_sym] in *. rewrite Hf in *. unfold inst_views_sym in Hv. apply elem_of_app in Hv as [Hv|Hv].
+        * apply elem_of_list_fmap in Hv as ([p t] & [= -> ->] & _). cbn [snd] in Hx. apply elem_of_list_fmap in Hx as (c & -> & [_ Hc]%elem_of_list_filter).
+          apply elem_of_list_fmap. eauto.
+        * apply elem_of_list_fmap in Hv as ([p o'] & [= -> ->] & _). cbn [snd] in Hx. by apply elem_of_list_singleton in Hx.
+  Qed.
+  Lemma symG_type o v : symG !! o = Some v → v.1 ∈ primitive_gates ∨ v.1 = BbIn ∨ v.1 = BbOut.
+  Proof.
+    intros (it & Hit & Hv)%symG_item. pose proof (fgood_of a bbs Hsub it Hit) as Hg.
+    destruct it as [ns|ns|ns|t inst ops|l r|bb inst conns]; cbn [views_sym gate_view_sym fgood] in *; try (by apply elem_of_nil in Hv).
+    - destruct Hg as (o' & ins & -> & Ht & _). apply elem_of_list_singleton in Hv as [= -> ->]. left. unfold norm_sym. destruct (is_parity t); [|done].
       case_bool_decide; [vm_compute; set_solver|done].
-    - injection Hv as <- <-. vm_compute. set_solver.
-  Qed.
-  Lemma all_ops_good x : x ∈ all_ops a → goodop a x.
-  Proof.
-    intros (it & Hx & Hit)%elem_of_list_bind. unfold it_ops in Hx. destruct (gate_view_sym it) as [[o [t l]]|] eqn:E; [|by apply elem_of_nil in Hx].
-    pose proof (view_sym_good a it o (t, l) (itemgood_of it Hit) E) as Hg. by eapply (proj1 (Forall_forall _ _) Hg).
+    - apply elem_of_list_singleton in Hv as [= -> ->]. left. vm_compute. set_solver.
+    - destruct Hg as (d & Hf & _). rewrite Hf in Hv. unfold inst_views_sym in Hv. apply elem_of_app in Hv as [Hv|Hv].
+      + apply elem_of_list_fmap in Hv as ([p t] & [= -> ->] & [[_ ->]|[_ ->]]%pin_list_elem); auto.
+      + apply elem_of_list_fmap in Hv as ([p o'] & [= -> ->] & _). left. vm_compute. set_solver.
   Qed.
 
   Section withT.
     Variables (t0 t1 : string).
     Hypothesis Hfr : t0 ∉ idents a ∧ t1 ∉ idents a.
     Hypothesis Hne : t0 ≠ t1.
-    Lemma sG_symG : sG (sF t0 t1 a) = symv t0 t1 <$> symG a.
-    Proof. unfold sF, symG. apply (sG_sym a t0 t1 Hfr Hne); [by rewrite fmap_empty|]. apply itemgood_of. Qed.
-    Lemma uses_ops : a_items a ≫= it_uses t0 t1 = nm t0 t1 <$> all_ops a.
+    Hypothesis Hdot : dotted t0 = false ∧ dotted t1 = false.
+    Lemma sG_symG : sG (sF t0 t1 bbs a) = symv t0 t1 <$> symG.
+    Proof. unfold sF, FvD2.symG. apply (sG_sym a bbs t0 t1 Hfr Hne Hdot); [by rewrite fmap_empty|]. apply itemgood_of. Qed.
+    Lemma uses_ops : a_items a ≫= uses t0 t1 bbs = nm t0 t1 <$> all_ops.
     Proof.
-      unfold all_ops. assert (H : ∀ l, (∀ it, it ∈ l → it ∈ a_items a) → l ≫= it_uses t0 t1 = nm t0 t1 <$> (l ≫= it_ops)).
+      unfold FvD3.all_ops. assert (H : ∀ l, (∀ it, it ∈ l → it ∈ a_items a) → l ≫= uses t0 t1 bbs = nm t0 t1 <$> (l ≫= uses_sym bbs)).
       { induction l as [|it l IH]; intros Hl; [done|]. rewrite !bind_cons, fmap_app, IH by (intros; apply Hl; by right). f_equal.
-        unfold it_uses, it_ops. rewrite (view_sym a t0 t1 Hfr Hne it) by (apply itemgood_of, Hl; by left).
-        destruct (gate_view_sym it) as [[o [t l']]|]; done. }
+        apply (uses_sym_eq a bbs t0 t1 Hfr Hne Hdot). apply itemgood_of, Hl. by left. }
       by apply H.
     Qed.
-    Lemma used_sym k x : (x = OConst "1'b0" ∧ k = t0) ∨ (x = OConst "1'b1" ∧ k = t1) → k ∈ a_items a ≫= it_uses t0 t1 ↔ x ∈ all_ops a.
+    Lemma used_sym k x : (x = OConst "1'b0" ∧ k = t0) ∨ (x = OConst "1'b1" ∧ k = t1) → k ∈ a_items a ≫= uses t0 t1 bbs ↔ x ∈ all_ops.
     Proof.
       intros Hk. rewrite uses_ops. split.
       - intros (y & Hy & Hin)%elem_of_list_fmap. assert (x = y) as ->; [|done].
-        apply (nm_inj a t0 t1 Hfr Hne); [destruct Hk as [[-> _]|[-> _]]; simpl; auto|by apply all_ops_good|].
+        apply (nm_inj a t0 t1 Hfr Hne Hdot); [destruct Hk as [[-> _]|[-> _]]; simpl; auto|by apply all_ops_good|].
         destruct Hk as [[-> ->]|[-> ->]]; done.
       - intros Hin. apply elem_of_list_fmap. exists x. split; [|done]. destruct Hk as [[-> ->]|[-> ->]]; done.
     Qed.
     (* finT through the symbolic state *)
-    Lemma finT_sym m : finT t0 t1 a m =
-      if decide (m = t0) then (if decide (OConst "1'b0" ∈ all_ops a) then Some (mk_node C0 false ∅) else None) else
-      if decide (m = t1) then (if decide (OConst "1'b1" ∈ all_ops a) then Some (mk_node C1 false ∅) else None) else
-      match symG a !! m with
+    Lemma finT_sym m : finT t0 t1 bbs a m =
+      if decide (m = t0) then (if decide (OConst "1'b0" ∈ all_ops) then Some (mk_node C0 false ∅) else None) else
+      if decide (m = t1) then (if decide (OConst "1'b1" ∈ all_ops) then Some (mk_node C1 false ∅) else None) else
+      match symG !! m with
       | Some v => Some (mk_node v.1 (bool_decide (m ∈ decl_outputs a)) (list_to_set (nm t0 t1 <$> v.2)))
       | None => if decide (m ∈ decl_inputs a) then Some (mk_node Input (bool_decide (m ∈ decl_outputs a)) ∅) else None
       end.
@@ -92,7 +120,7 @@ Section symfacts.
       destruct (decide (m = t1)).
       { destruct (decide (t1 ∈ _)) as [Hu|Hu]; [rewrite decide_True; [done|]|rewrite decide_False; [done|]];
           [apply (used_sym t1 (OConst "1'b1")); auto|intros Hx; apply Hu; apply (used_sym t1 (OConst "1'b1")); auto]. }
-      destruct (symG a !! m) as [[t l]|]; done.
+      destruct (symG !! m) as [[t l]|]; done.
     Qed.
   End withT.
 End symfacts.
